@@ -701,26 +701,6 @@ def reachable(table, cid: int) -> set:
     return seen
 
 
-def lazy_dialect_plain_zone(table, rid: int, rcall) -> bool:
-    """signature of known finding lazy-dialect-uncompiled-plain-nested: the call passes a dialect and reaches a
-    mixin class with lazy_compilation and ADD_DIALECT_SUPPORT that owns (directly or through plain classes) a
-    plain dataclass: that class may meet its first builder with dialect=D"""
-    if rcall is None:
-        return False
-    for m in reachable(table, rid):
-        c = table[m]
-        if c.mixin and c.o.lazy and c.o.fdl:
-            todo, seen = list(refs(c)), set()
-            while todo:
-                k = todo.pop()
-                if k in seen:
-                    continue
-                seen.add(k)
-                if not table[k].mixin:
-                    return True
-    return False
-
-
 def definition_order(rng, table) -> list[int]:
     """a random order in which every class is defined after the classes it refers to: which owner
     compiles a shared plain nested class first depends on it"""
@@ -912,9 +892,61 @@ def coq_tree_value(v, enc) -> str:
     return enc(v)
 
 
+ALL_FLAGS = (True, True, True, True)
+
+
+def eval_nested(ctx: vlib.Ctx, table, order, src, ns, rid: int, t, kon, kba, rcall, ncases, ninfo, stream="nested"):
+    """one call <instance of class rid>.to_dict(...) against the hereditary reference; appends the Coq case"""
+    root = table[rid]
+    ro = replace(root.o, kon=kon, kba=kba, call=rcall)
+    rep = {"kind_of_case": "nested", "source": src, "cls": f"C{rid}", "twin": f"P{rid}",
+           "instance": tree_src(table, t, "C"), "twin_instance": tree_src(table, t, "P"), "entry": "to_dict",
+           "kwargs": kwargs_src(ro), "default_dialect": None}
+    inst = eval(rep["instance"], ns)
+    twin = eval(rep["twin_instance"], ns)
+    try:
+        plain = twin.to_dict()
+    except Exception as ex:
+        rep["expected"] = "a mapping"
+        ctx.fail(f"nested: the option-free twin raised {type(ex).__name__}: {ex}"[:300], rep,
+                 {"kind": "plain-raised-" + type(ex).__name__, "entry": stream})
+        return
+    hits: dict = {}
+    avail = (kon, kba, rcall)
+    expected = walk(table, ns, t, inst, plain, (rid,), ALL_FLAGS, avail, "spec", hits)
+    rep["expected"] = repr(expected)
+    rep["plain"] = repr(plain)
+    ctx.count((stream, repr(table), tuple(order), rid, repr(t), kon, kba, rcall))
+    ctx.hist("entry", stream)
+    try:
+        observed = inst.to_dict(**call_kwargs(ro, ns))
+    except Exception as ex:
+        rep["observed"] = f"{type(ex).__name__}: {ex}"
+        ctx.fail(f"nested {rep['instance']}.to_dict({kwargs_src(ro)}) raised {type(ex).__name__}: {ex}"[:400], rep,
+                 {"kind": "raised-" + type(ex).__name__, "entry": stream})
+        return
+    rep["observed"] = repr(observed)
+    enc = PvEnc()
+    in_domain = not hits
+    ncases.append(f"({coq_table(table, ns, enc)}, ({rid}%nat, {coq_node(table, t, inst, plain, enc)}), "
+                  f"(K {coq_ob(kon)} {coq_ob(kba)} {coq_ns(rcall)}), (Some {coq_tree_value(observed, enc)}), {coq_bool(in_domain)})")
+    ninfo.append(rep)
+    rep["_ok"] = typed(observed) == typed(expected)
+    rep["_kf_zone"] = bool(hits)
+    if typed(observed) != typed(expected):
+        kind = "nested-projection-mismatch"
+        if hits:
+            h2: dict = {}
+            predicted = walk(table, ns, t, inst, plain, (rid,), ALL_FLAGS, avail, "kf", h2)
+            if typed(predicted) == typed(observed):
+                kind = "union-member-flags" if hits.get("d8b") else "call-dialect-vs-flag-defaults"
+        ctx.fail(f"nested {rep['instance']}.to_dict({kwargs_src(ro)}) = {observed!r}, hereditary projection of the plain "
+                 f"output is {expected!r}"[:500], rep, {"kind": kind, "entry": stream})
+    ctx.hist("form", "nested-kf-zone" if hits else "nested-in-domain")
+
+
 def run_nested(ctx: vlib.Ctx, ncases: list[str], ninfo: list):
     rng = ctx.rng
-    all_flags = (True, True, True, True)
     for _ in range(ctx.budget(150, 1500)):
         table = gen_table(rng)
         order = definition_order(rng, table)
@@ -923,74 +955,53 @@ def run_nested(ctx: vlib.Ctx, ncases: list[str], ninfo: list):
         call = gen_ns(rng, 0.2) if (any(table[r].o.fdl for r in roots) and rng.random() < 0.4) else None
         src = table_source(table, call, order)
         ns = load(src)
+        ctx.hist("nested_classes", str(len(table)))
+        for c in table[1:]:
+            ctx.hist("nested_kind", "mixin" if c.mixin else ("plain+Config" if c.o != Opts() else "plain"))
         for rid in roots[:3]:
             root = table[rid]
+            ctx.hist("nested_root", "class0" if rid == 0 else "inner-mixin-as-root")
             for _ in range(2 if rid == 0 else 1):
                 kon = rng.choice([None, True, False]) if root.o.fon else None
                 kba = rng.choice([None, True, False]) if root.o.fba else None
                 rcall = call if root.o.fdl else None
-                ro = replace(root.o, kon=kon, kba=kba, call=rcall)
-                t = gen_tree(rng, table, rid)
-                rep = {"kind_of_case": "nested", "source": src, "cls": f"C{rid}", "twin": f"P{rid}",
-                       "instance": tree_src(table, t, "C"), "twin_instance": tree_src(table, t, "P"), "entry": "to_dict",
-                       "kwargs": kwargs_src(ro), "default_dialect": None}
-                inst = eval(rep["instance"], ns)
-                twin = eval(rep["twin_instance"], ns)
-                try:
-                    plain = twin.to_dict()
-                except Exception as ex:
-                    rep["expected"] = "a mapping"
-                    ctx.fail(f"nested: the option-free twin raised {type(ex).__name__}: {ex}"[:300], rep,
-                             {"kind": "plain-raised-" + type(ex).__name__, "entry": "nested"})
-                    continue
-                hits: dict = {}
-                avail = (kon, kba, rcall)
-                expected = walk(table, ns, t, inst, plain, (rid,), all_flags, avail, "spec", hits)
-                rep["expected"] = repr(expected)
-                rep["plain"] = repr(plain)
-                ctx.count(("nested", repr(table), tuple(order), rid, repr(t), kon, kba, rcall))
-                ctx.hist("entry", "nested")
-                ctx.hist("nested_classes", str(len(table)))
-                ctx.hist("nested_root", "class0" if rid == 0 else "inner-mixin-as-root")
-                for c in table[1:]:
-                    ctx.hist("nested_kind", "mixin" if c.mixin else ("plain+Config" if c.o != Opts() else "plain"))
-                try:
-                    observed = inst.to_dict(**call_kwargs(ro, ns))
-                except Exception as ex:
-                    rep["observed"] = f"{type(ex).__name__}: {ex}"
-                    kind = "raised-" + type(ex).__name__
-                    if lazy_dialect_plain_zone(table, rid, rcall) and type(ex).__name__ in ("AttributeError", "InvalidFieldValue"):
-                        # the listed finding is a FIRST-call failure (inside a Union member it is swallowed and
-                        # resurfaces as InvalidFieldValue): it must disappear after one dialect-less call
-                        try:
-                            inst.to_dict()
-                            again = inst.to_dict(**call_kwargs(ro, ns))
-                            if isinstance(again, dict):
-                                kind = "lazy-dialect-uncompiled-plain-nested"
-                        except Exception:
-                            pass
-                    ctx.fail(f"nested {rep['instance']}.to_dict({kwargs_src(ro)}) raised {type(ex).__name__}: {ex}"[:400], rep,
-                             {"kind": kind, "entry": "nested"})
-                    continue
-                rep["observed"] = repr(observed)
-                enc = PvEnc()
-                in_domain = not hits
-                ncases.append(f"({coq_table(table, ns, enc)}, ({rid}%nat, {coq_node(table, t, inst, plain, enc)}), "
-                              f"(K {coq_ob(kon)} {coq_ob(kba)} {coq_ns(rcall)}), (Some {coq_tree_value(observed, enc)}), {coq_bool(in_domain)})")
-                ninfo.append(rep)
-                rep["_ok"] = typed(observed) == typed(expected)
-                rep["_kf_zone"] = bool(hits)
-                if typed(observed) != typed(expected):
-                    kind = "nested-projection-mismatch"
-                    if hits:
-                        h2: dict = {}
-                        predicted = walk(table, ns, t, inst, plain, (rid,), all_flags, avail, "kf", h2)
-                        if typed(predicted) == typed(observed):
-                            kind = "union-member-flags" if hits.get("d8b") else "call-dialect-vs-flag-defaults"
-                    ctx.fail(f"nested {rep['instance']}.to_dict({kwargs_src(ro)}) = {observed!r}, hereditary projection of the plain "
-                             f"output is {expected!r}"[:500], rep, {"kind": kind, "entry": "nested"})
-                ctx.hist("form", "nested-kf-zone" if hits else "nested-in-domain")
+                eval_nested(ctx, table, order, src, ns, rid, gen_tree(rng, table, rid), kon, kba, rcall, ncases, ninfo)
         unload(ns)
+
+
+def run_history(ctx: vlib.Ctx, ncases: list[str], ninfo: list):
+    """systematic (every run, every seed): compile-history family.  An owner (lazy or not, with ADD_DIALECT_SUPPORT,
+    options from Config.dialect) holding a nested class (plain / plain with Config / mixin) through a direct,
+    Optional, List or Union field; the FIRST call on fresh classes passes dialect= or not, then the other one."""
+    rng = ctx.rng
+    leaf = FieldSpec("x", "optint", "val", "None", "xx", False)
+    leaf2 = FieldSpec("y", "int", "val", "1", None, False)
+    inner_kinds = [
+        NCls(Opts(), (leaf, leaf2), False),
+        NCls(Opts(cfg=("T", "U", "U"), fdl=True), (leaf, leaf2), False),
+        NCls(Opts(cfgd=("U", "T", "T"), fon=True, fdl=True), (leaf, leaf2), True),
+    ]
+    other = NCls(Opts(), (FieldSpec("z", "optint", "val", "None", None, False),), False)
+    shapes = [("direct", DcField("i", (1,), False, "in", False)), ("optional", DcField("i", (1,), True, None, False)),
+              ("list", DcField("i", (1,), False, None, False, many=True)), ("union", DcField("i", (2, 1), False, None, False))]
+    calls = [("T", "T", "T"), ("F", "U", "U")]
+    for inner in inner_kinds:
+        for sname, f in shapes:
+            for lazy in (True, False):
+                for first_with_dialect in (True, False):
+                    outer = NCls(Opts(cfgd=("T", "T", "U"), cfg=("U", "U", "U"), fdl=True, lazy=lazy,
+                                      fon=rng.random() < 0.3), (f, FieldSpec("w", "optint", "val", "None", "W", False)), True)
+                    table = [outer, inner, other]
+                    order = [2, 1, 0]
+                    call = rng.choice(calls)
+                    src = table_source(table, call, order)
+                    ns = load(src)
+                    ctx.hist("history", f"{sname}/{'mixin' if inner.mixin else 'plain'}/lazy={lazy}/first_dialect={first_with_dialect}")
+                    for with_dialect in ((True, False, True) if first_with_dialect else (False, True)):
+                        t = gen_tree(rng, table, 0)
+                        eval_nested(ctx, table, order, src, ns, 0, t, None, None, call if with_dialect else None,
+                                    ncases, ninfo, stream="history")
+                    unload(ns)
 
 
 # ---------------------------------------------------------------------------
@@ -1073,6 +1084,66 @@ def run_lattice(ctx: vlib.Ctx, cases: list[str], case_info: list):
         unload(ns)
 
 
+EDGE_FIELDS = [
+    FieldSpec("nf", "optfloat", "val", "float('nan')", "NF", False),
+    FieldSpec("na", "any", "val", "float('nan')", None, False),
+    FieldSpec("pf", "float", "val", "float('nan')", None, False),
+    FieldSpec("te", "tuple_enum", "val", "(Color.RED,)", "TE", False),
+    FieldSpec("tp", "tuple_path", "val", "(PurePosixPath('/a'), 1)", None, False),
+    FieldSpec("ot", "opt_tuple_enum", "val", "(Color.BLUE,)", None, False),
+    FieldSpec("fz", "float", "val", "0.0", None, False),
+    FieldSpec("b1", "bool", "val", "True", "B1", False),
+]
+EDGE_VALUES = {
+    "nf": ["None", "float('nan')", "1.0"], "na": ["None", "'q'", "float('nan')", "1"], "pf": ["float('nan')", "0", "2.5"],
+    "te": ["(Color.RED,)", "(Color.RED, Color.BLUE)", "()"], "tp": ["(PurePosixPath('/a'), 1)", "(PurePosixPath('/b'), 2)"],
+    "ot": ["None", "(Color.BLUE,)", "(Color.RED, Color.BLUE)"], "fz": ["0", "-0.0", "False", "1.5"], "b1": ["1", "True", "False", "1.0"],
+}
+
+
+def run_edge(ctx: vlib.Ctx, cases: list[str], case_info: list):
+    """systematic (every run, every seed): defaults with a special comparison -- NaN (holding None / str / NaN /
+    numbers), tuples of enum members and paths (element-wise literal), 0.0 / True against ==-equal values of other
+    types -- under omit_default coming from Config, Config.dialect and the call dialect, crossed with omit_none,
+    the keyword features and sort_keys."""
+    rng = ctx.rng
+    vectors = []
+    for src_od in ("cfg", "cfgd", "call", "off"):
+        for on in ("U", "T"):
+            for feat in (False, True):
+                vectors.append((src_od, on, feat))
+    for src_od, on, feat in vectors:
+        od = ("U", "T", "U")
+        o = Opts(call=od if src_od == "call" else None, cfgd=od if src_od == "cfgd" else None,
+                 cfg=(on, "T" if src_od == "cfg" else "U", "U"), sort=feat, fon=feat, fba=feat, fdl=src_od == "call",
+                 lazy=(src_od == "cfgd" and feat))
+        fields = list(EDGE_FIELDS)
+        rng.shuffle(fields)
+        src = flat_source(fields, o)
+        try:
+            ns = load(src)
+        except Exception as ex:
+            vals = [EDGE_VALUES[f.name][0] for f in fields]
+            ev = Eval(src, o, fields, vals, False, kind="class-creation-raised-" + type(ex).__name__,
+                      observed=f"{type(ex).__name__}: {ex}", expected="a mapping (class X must compile)")
+            ev.what = f"creating the class raised {type(ex).__name__}: {ex}"
+            record_failure(ctx, ev, flat_replay_dict(ev), flat_signature(ev))
+            continue
+        for k in range(4):
+            vals = [EDGE_VALUES[f.name][(k + i) % len(EDGE_VALUES[f.name])] if k < 3 else rng.choice(EDGE_VALUES[f.name])
+                    for i, f in enumerate(fields)]
+            oo = replace(o, kon=rng.choice([None, True, False]) if o.fon else None)
+            ev = eval_flat(ns, src, fields, oo, vals)
+            ctx.count(("edge",) + flat_key(fields, oo, vals))
+            ctx.hist("entry", "edge-defaults")
+            if ev.coq is not None:
+                cases.append(ev.coq)
+                case_info.append(ev)
+            if not ev.ok:
+                record_failure(ctx, ev, flat_replay_dict(ev), flat_signature(ev))
+        unload(ns)
+
+
 def run(ctx: vlib.Ctx):
     ctx.coverage["rule"] = (
         "flat: random dataclasses of 1-6 fields over 17 field shapes (nullable by type / by default None, trivial / "
@@ -1085,7 +1156,9 @@ def run(ctx: vlib.Ctx):
         "random dependency-respecting order, direct / Optional / Union[...] / List[...] dataclass fields, EVERY mixin "
         "class used as root in random call order (a shared plain class meets its first builder through different "
         "owners), random instance trees, root keyword arguments incl. call dialect; the nested part of every output is "
-        "compared with the nested class's own projection (own plain serialization when it set nothing). "
+        "compared with the nested class's own projection (own plain serialization when it set nothing); history: "
+        "systematic owner(lazy?) x nested kind x field kind x first call with/without dialect=; edge: systematic special "
+        "defaults (NaN, tuples of enum members / paths, 0.0, True) x source of omit_default x omit_none x features. "
         "distinct = (schema shape, option vector, values)")
     ctx.trusted += [
         "OptProj.v: hand-written model of the generated to_dict body (kwargs-vs-literal form, nullable / omit_default / "
@@ -1114,8 +1187,6 @@ def run(ctx: vlib.Ctx):
         "defaults (flag_defaults_ok), union member flags (ok_h: flags_eqb)",
         "nested: mixin roots (codec path forwards no flags and hands its default dialect to every class by design); "
         "dataclass-typed fields have no default other than None / default_factory=list",
-        "excluded corner listed as known finding (no Coq model of compile state): lazy_compilation + ADD_DIALECT_SUPPORT "
-        "owner whose first call passes a dialect and reaches a not yet compiled plain dataclass (AttributeError)",
         "hooks, context values, format encoders (to_json ...) and lazy compilation do not change the mapping: exercised "
         "by the oracle (lazy, context flag), not part of the model",
     ]
@@ -1143,9 +1214,11 @@ def run(ctx: vlib.Ctx):
     info: list = []
     run_flat(ctx, cases, info)
     run_lattice(ctx, cases, info)
+    run_edge(ctx, cases, info)
 
     ncases: list[str] = []
     ninfo: list = []
+    run_history(ctx, ncases, ninfo)
     run_nested(ctx, ncases, ninfo)
 
     name = "to_dict-model-vs-generated-code"
